@@ -58,9 +58,13 @@ ValidTransition(old, new) ==
 Concerns(k, s) == k[1] = s \/ k[2] = AddrOf[s]
 
 \* one key's change is acceptable when caused by an authenticated control message from s
+\* a leg that this node REQUESTED becomes established only through the answer of the peer that was asked (the tunnel's
+\* peer), never through a message of the relay's other party
+AnsweredByAsked(s, o, nw, k) == (o.state = "requested" /\ nw.state = "established") => s = k[1]
 ChangeOK(n, s, old, new, k) ==
     /\ Concerns(k, s)
-    /\ IF k \in Keys(old) /\ k \in Keys(new) THEN ValidTransition(ByKey(old, k), ByKey(new, k))
+    /\ IF k \in Keys(old) /\ k \in Keys(new) THEN /\ ValidTransition(ByKey(old, k), ByKey(new, k))
+                                                   /\ AnsweredByAsked(s, ByKey(old, k), ByKey(new, k), k)
        ELSE IF k \in Keys(new) THEN /\ k[1] \in tuns[n]                     \* created on a live tunnel
                                      /\ (ByKey(new, k).type = "forwarding" => am[n] = "on")
                                      /\ k[2] # AddrOf[n]                       \* never a relay to itself
